@@ -9,6 +9,7 @@
 package main
 
 import (
+	"sync"
 	"bytes"
 	"context"
 	"crypto/ecdsa"
@@ -93,6 +94,7 @@ type driver struct {
 	stats   map[string]int
 	tsFn    func() int64
 	enum    int // history number (systematic scenarios)
+	subMu   sync.Mutex
 	multi   bool // more than one instance may be live (scenarios two, startup): refusals can be legitimate
 	rcN     int
 	seeds   [][]byte // 32-byte seeds the log keys are derived from (cmd/recompute-cache needs them)
@@ -375,19 +377,21 @@ func (d *driver) submit(li *logInst, e *ctlog.PendingLogEntry, low bool) {
 func (d *driver) submitOpt(li *logInst, e *ctlog.PendingLogEntry, low bool, doSync bool) {
 	w := d.w
 	w.mu.Lock()
-	li.in.buf = &bytes.Buffer{}
-	li.in.subGid = goid()
-	li.in.subFaults = nil
+	sctx, scancel := context.WithCancel(context.Background())
+	sc := &subCtx{buf: &bytes.Buffer{}, cancel: scancel, cancelOnFail: d.r.Intn(2) == 0}
+	if li.in.subs == nil {
+		li.in.subs = map[int64]*subCtx{}
+	}
+	li.in.subs[goid()] = sc
 	wid := d.nextWid
 	d.nextWid++
 	stopped := li.log != nil && !li.running && !li.in.dead // RunSequencer has returned before this submission
-	sctx, scancel := context.WithCancel(context.Background())
-	li.in.subCancel = scancel
-	li.in.cancelOnFail = d.r.Intn(2) == 0
 	w.mu.Unlock()
 	f, src := li.log.VerifAddLeafToPool(sctx, e, low)
+	d.subMu.Lock() // two submitters may finish at the same time (scenario sharedissuer)
+	defer d.subMu.Unlock()
 	w.mu.Lock()
-	li.in.subCancel = nil
+	sc.cancel = nil
 	if sctx.Err() != nil {
 		d.stats["submit-context-cancelled"]++
 	}
@@ -463,7 +467,7 @@ func (d *driver) submitOpt(li *logInst, e *ctlog.PendingLogEntry, low bool, doSy
 	}
 	w.mu.Lock()
 	var fs []string
-	for _, x := range li.in.subFaults {
+	for _, x := range sc.faults {
 		fs = append(fs, x.String())
 	}
 	fl := "-"
@@ -478,8 +482,8 @@ func (d *driver) submitOpt(li *logInst, e *ctlog.PendingLogEntry, low bool, doSy
 	if len(iss) > 0 {
 		il = strings.Join(iss, ",")
 	}
-	buf := li.in.buf
-	li.in.buf = nil
+	buf := sc.buf
+	delete(li.in.subs, goid())
 	if li.in.dead {
 		d.nextWid-- // the model never sees this submission: keep the waiter numbering aligned
 	}
